@@ -106,3 +106,62 @@ Example C02_example :
   mkTok [Long [110;97;109;101]%N true [45;45;110;97;109;101;61;61;61]%N; ArgWord [61;61]%N;
          Short 110%N true [45;110;61]%N; ArgWord []] None None.
 Proof. vm_compute. reflexivity. Qed.
+
+(* ------------------------------------------------------------------ whole conventional trees *)
+(* After tokenisation the spellings `--name value`, `--name=value`, `-n value`, `-n=value`, `-nvalue`
+   of one argument, and `-abc` against `-a -b -c`, differ only in the `adjacent` bit and the recorded
+   text of the option tokens, in which of its names an item is written with, and in whether a VALUE is
+   a Word or an ArgWord (theorems above).  `Resp l` relates two token lists that differ in nothing
+   else, level by level through the subcommand tree.  The grammar does not tell such lists apart
+   (ConvRespell.v), so by C01_conformance the parser does not either: both vectors are accepted with
+   the same value, or both are reported on stderr. *)
+From Coq Require Import List NArith.
+From BpafModel Require Import Conv.
+From BpafLemmas Require Import ConvRefine ConvChain ConvTree ConvSound ConvRespell.
+Import ListNotations.
+
+Theorem C02_respelling_tree :
+  forall feat env l argv1 argv2,
+  tree_ok l -> plain_cmds l = true ->
+  let st := short_tables (compile_options l) in
+  let t1 := tokenize (fst st) (snd st) argv1 in
+  let t2 := tokenize (fst st) (snd st) argv2 in
+  t_ambiguity t1 = None -> t_ambiguity t2 = None ->
+  Resp l (mark_tokens t1) (mark_tokens t2) ->
+  denote l argv1 <> Unspecified -> denote l argv2 <> Unspecified ->
+  (exists v, run_inner feat env (compile_options l) None argv1 = OutOk v /\
+             run_inner feat env (compile_options l) None argv2 = OutOk v) \/
+  (exists m1 m2, run_inner feat env (compile_options l) None argv1 = OutStderr m1 /\
+                 run_inner feat env (compile_options l) None argv2 = OutStderr m2).
+Proof. exact respell_outcome. Qed.
+Print Assumptions C02_respelling_tree.
+
+Theorem C02_respelling_same_verdict :
+  forall l argv1 argv2,
+  let st := short_tables (compile_options l) in
+  let t1 := tokenize (fst st) (snd st) argv1 in
+  let t2 := tokenize (fst st) (snd st) argv2 in
+  t_ambiguity t1 = None -> t_ambiguity t2 = None ->
+  Resp l (mark_tokens t1) (mark_tokens t2) ->
+  vsimv (denote l argv1) (denote l argv2).
+Proof. exact respell_verdict. Qed.
+Print Assumptions C02_respelling_same_verdict.
+
+(* the relation is inhabited by the spellings the property lists: `--out=x -v a`, `-o x --verb a`
+   for a level with the switch -v/--verb, the argument -o/--out and positional words *)
+Definition c02_level : level :=
+  Level [CSwitch (mkNamed [118%N] [[118;101;114;98]%N] [] None);
+         CArg (mkNamed [111%N] [[111;117;116]%N] [] None) [70%N] TyString ARequired]
+        (TPos [mkCPos [87%N] TyString QMany]).
+Definition c02_toks (argv : list bytes) :=
+  mark_tokens (tokenize (fst (short_tables (compile_options c02_level))) (snd (short_tables (compile_options c02_level))) argv).
+Example C02_example_respell :
+  Resp c02_level (c02_toks [[45;45;111;117;116;61;120]; [45;118]; [97]]%N)
+                 (c02_toks [[45;111]; [120]; [45;45;118;101;114;98]; [97]]%N).
+Proof.
+  vm_compute.
+  eapply RKeyVal; [repeat split; try reflexivity; discriminate|vm_compute; reflexivity|reflexivity|reflexivity|reflexivity|].
+  eapply RFlagKey; [repeat split; try reflexivity; discriminate| |].
+  - intros j it H. vm_compute in H. inversion H; subst. reflexivity.
+  - eapply RTok; [reflexivity|reflexivity|intros cs w H; discriminate|]. apply RNil.
+Qed.
